@@ -36,13 +36,13 @@ type Device struct {
 	gnmi.UnimplementedGNMIServer
 	Target string
 
-	mu       sync.Mutex
-	values   map[string]string
-	boot     int
-	maxEID   uint64
-	failNext []codes.Code // scripted transient answers, consumed one per Set
+	mu        sync.Mutex
+	values    map[string]string
+	boot      int
+	maxEID    uint64
+	failNext  []codes.Code // scripted transient answers, consumed one per Set
 	arbitrate bool
-	log      []DevReq
+	log       []DevReq
 
 	lis *bufconn.Listener
 	srv *grpc.Server
@@ -96,6 +96,16 @@ func (d *Device) Snapshot() (map[string]string, int) {
 		m[k] = v
 	}
 	return m, d.boot
+}
+
+func (d *Device) arbState() (int, []int) {
+	d.mu.Lock()
+	defer d.mu.Unlock()
+	fq := make([]int, 0, len(d.failNext))
+	for _, c := range d.failNext {
+		fq = append(fq, int(c))
+	}
+	return int(d.maxEID), fq
 }
 
 func (d *Device) takeLog() []DevReq {
